@@ -37,4 +37,43 @@ theorem runB_write_closed (c : Cfg) (v : VirtualTerm) (h : v.closed = true) (l :
     runB c v (.w l t :: rest) = .error "virtualterm closed" := by
   simp [runB, VirtualTerm.writeForLine, h]
 
+theorem runV_writes : ∀ (hist : List (Nat × Bytes)) (v : VirtualTerm) (rest : List Item),
+    runV v (writesOf hist ++ rest) =
+      match v.runHistory (castHist hist) with
+      | .ok v' => runV v' rest
+      | .error e => .error e := by
+  intro hist
+  induction hist with
+  | nil => intro v rest; rfl
+  | cons u hist ih =>
+    intro v rest
+    simp only [writesOf, List.map_cons, List.cons_append, runV, castHist, VirtualTerm.runHistory]
+    cases h : v.writeForLine (u.1 : Int) u.2 with
+    | error e => rfl
+    | ok v' =>
+      have := ih v' rest
+      simp only [writesOf, castHist] at this
+      simp only [this, bind, Except.bind]
+
+/-- once closed, any number of further `Close()` calls followed by a write panics -/
+theorem runB_closed_then_write (c : Cfg) (l : Int) (t : Bytes) (rest : List Item) : ∀ (n : Nat) (v : VirtualTerm),
+    v.closed = true → runB c v (List.replicate n .c ++ .w l t :: rest) = .error "virtualterm closed" := by
+  intro n
+  induction n with
+  | zero => intro v h; simpa using runB_write_closed c v h l t rest
+  | succ n ih =>
+    intro v _
+    simp only [List.replicate_succ, List.cons_append, runB]
+    rw [ih (bufferedClose c v).1 rfl]
+
+theorem runV_closed_then_write (l : Int) (t : Bytes) (rest : List Item) : ∀ (n : Nat) (v : VirtualTerm),
+    v.closed = true → runV v (List.replicate n .c ++ .w l t :: rest) = .error "virtualterm closed" := by
+  intro n
+  induction n with
+  | zero => intro v h; simp [runV, VirtualTerm.writeForLine, h]
+  | succ n ih =>
+    intro v _
+    simp only [List.replicate_succ, List.cons_append, runV]
+    exact ih v.close rfl
+
 end Rare.C20
